@@ -67,7 +67,7 @@ func vpC16Single(tname string) {
 	ti := vpTypeIndex(tname)
 	positions := vpC16Positions(tname)
 	pos := positions[vpChoice(len(positions))]
-	shape := []int{0, 1, 2, 3, 4, 6, 10}[vpChoice(7)]
+	shape := []int{0, 1, 2, 3, 4, 6, 10, 17, 18}[vpChoice(9)]
 	x := vpNew(ti)
 	vpSetField(x, 0, 0, 'i')
 	if vpBool() {
@@ -92,7 +92,7 @@ func vpC16Single(tname string) {
 		vpAssert("object-with-id-becomes-its-id/"+cell, got != nil && IsIRI(got) && got.GetLink() == orig.GetID())
 	case 0:
 		vpAssert("iri-unchanged/"+cell, got != nil && IsIRI(got) && got.GetLink() == orig.GetLink())
-	case 3, 10:
+	case 3, 10, 17, 18:
 		vpAssert("link-unchanged/"+cell, got == orig)
 	case 2:
 		vpAssert("idless-object-unchanged/"+cell, got == orig)
